@@ -1,6 +1,7 @@
 (* C11 -- assembly: retrieve over the generated tmap, then the system-wide and per-process theorems,
    the two refuted classes and the satisfiability examples. *)
 From PV Require Import C11.Spec C11.Lib C11.ProofsTables C11.ProofsAddr C11.ProofsLines C11.ProofsOwners.
+Require Import ZifyBool.
 
 (* ------------------------------------------------------------ retrieve = the reference tables *)
 Lemma filter_all {A} (f : A -> bool) l : (forall x, In x l -> f x = true) -> filter f l = l.
@@ -340,14 +341,24 @@ Proof.
 Qed.
 
 (* system-wide, UNIX table: one row per holder when no socket is shared between processes *)
+(* socktype_to_enum over the dumped members of socket.SocketKind = the documented members, for every number *)
+Lemma sock_kind_agrees n : to_enum gen_socket_kinds n = spec_sock_kind n.
+Proof.
+  unfold to_enum, spec_sock_kind.
+  assert (E : existsb (Z.eqb n) gen_socket_kinds = ((1 <=? n) && (n <=? 5) || (n =? 2048) || (n =? 524288))).
+  { cbn [existsb gen_socket_kinds]. lia. }
+  now rewrite E.
+Qed.
+
 Lemma unix_row_ok (pf : option Z * Z) u :
-  row_ok {| r_fd := snd pf; r_family := 1; r_type := utype_num (u_type u); r_laddr := APath (path_of u);
+  row_ok {| r_fd := snd pf; r_family := tmap_obj 1; r_type := to_enum gen_socket_kinds (utype_num (u_type u));
+            r_laddr := APath (path_of u);
             r_raddr := APath []; r_status := CONN_NONE; r_pid := fst pf |}
-         {| e_family := 1; e_type := utype_num (u_type u); e_laddr := APath (path_of u); e_raddr := APath [];
-            e_status := spec_none; e_owners := [pf] |}.
+         {| e_family := TEnum 1; e_type := spec_sock_kind (utype_num (u_type u)); e_laddr := APath (path_of u);
+            e_raddr := APath []; e_status := spec_none; e_owners := [pf] |}.
 Proof.
   unfold row_ok. cbn [r_family r_type r_laddr r_raddr r_status r_pid r_fd e_family e_type e_laddr e_raddr
-                      e_status e_owners]. repeat split. left. now destruct pf.
+                      e_status e_owners]. rewrite sock_kind_agrees. repeat split. left. now destruct pf.
 Qed.
 
 Lemma sys_unix_rows v ps us :
@@ -752,7 +763,7 @@ Example ipv6_unsupported_example :
   let st := Build_kstate [ex_tcp] None [] (Some [ex_udp6; ex_v6_listen0]) [] (ex_procs false) (fun _ => None) in
   wf_state st = true /\ files_text_safe true st = true
   /\ exists adds, net_connections_adds current true o (k_files true st) (to_procs (k_procs st)) (bs "inet") = Val adds
-                  /\ map r_family adds = [2; 10] /\ map r_laddr adds = [AInet [127; 0; 0; 1] 22; ANone]
+                  /\ map r_family adds = [TEnum 2; TEnum 10] /\ map r_laddr adds = [AInet [127; 0; 0; 1] 22; ANone]
                   /\ length (spec_sys (bs "inet") st) = 3%nat.
 Proof. vm_compute. repeat split; try reflexivity. eexists. repeat split; reflexivity. Qed.
 
@@ -832,3 +843,23 @@ Example all_tables_degenerate :
   wf_state st = true /\ files_text_safe true st = true
   /\ net_connections current true ipv6_ok (k_files true st) (to_procs (k_procs st)) (bs "all") = Val [].
 Proof. intros d. destruct d; vm_compute; repeat split; reflexivity. Qed.
+
+(* ------------------------------------------------------------ the classes of the field values *)
+Lemma field_classes :
+  gen_tmap_enums = true
+  /\ forallb (fun f => existsb (Z.eqb f) gen_address_families) [1; 2; 10] = true
+  /\ forallb (fun s => existsb (beqb s) gen_conn_constants) (CONN_NONE :: map snd gen_tcp_statuses) = true.
+Proof. repeat split; reflexivity. Qed.
+
+(* SOCK_SEQPACKET is the member, SOCK_RAW (3) too, an unknown type (7, 0) stays a plain int *)
+Example unix_type_classes :
+  let st := Build_kstate [] None [] None
+              [ex_unix (bs "600") (bs "/s") USeqpacket; ex_unix (bs "601") (bs "/r") (UOther 3);
+               ex_unix (bs "602") (bs "/u") (UOther 7); ex_unix (bs "603") (bs "/z") (UOther 0)]
+              (ex_procs false) (fun _ => None) in
+  wf_state st = true /\ files_text_safe true st = true
+  /\ exists adds, net_connections_adds current true ipv6_ok (k_files true st) (to_procs (k_procs st)) (bs "unix") = Val adds
+                  /\ map r_type adds = [TEnum 5; TEnum 3; TInt 7; TInt 0]
+                  /\ map r_family adds = [TEnum 1; TEnum 1; TEnum 1; TEnum 1]
+                  /\ map e_type (spec_sys (bs "unix") st) = [TEnum 5; TEnum 3; TInt 7; TInt 0].
+Proof. vm_compute. repeat split; try reflexivity. eexists. repeat split; reflexivity. Qed.
